@@ -458,11 +458,146 @@ def r16_i(prog: Program, chk: Check) -> None:
            f"{total} change sequences, {len(bad)} give a different file, {len(crashes)} crash" + (f"; smallest: {bad[0]['changes']} -> patches {bad[0]['patches']}" if bad else ""), witness=(bad[:4] or crashes[:4]))
 
 
+# ------------------------------------------------------------------- R16.j
+def _add_ignores_fixpoint(model, code_lines, diags_per_line, limit: int = 12):
+    """Repeat: report every raw diagnostic with add_ignores on, apply the first
+    proposed replacement (documented splice), until nothing is reported.
+    Lines are (text, origin) with origin = index of the original code line or None
+    for an inserted comment; raw diagnostics stay attached to their code line."""
+    from . import filter_model as flt
+
+    lines = [(t, i) for i, t in enumerate(code_lines)]
+    history = []
+    for it in range(limit):
+        texts = [t for t, _ in lines]
+        pos = {o: idx + 1 for idx, (_, o) in enumerate(lines) if o is not None}
+        diags = [(pos[i], c) for i, codes in enumerate(diags_per_line) for c in codes]
+        rep, used, reps, unused = model.run_fresh(texts, diags, frozenset(flt.CODES), True)
+        if isinstance(rep, tuple) and rep and rep[0] == "crash":
+            return {"outcome": "crash", "detail": rep[1], "iterations": it, "file": texts}
+        if not rep:
+            return {"outcome": "fixpoint", "iterations": it, "file": texts, "lines": lines, "unused": unused, "reported_last": rep}
+        if not reps:
+            return {"outcome": "no-replacement", "iterations": it, "file": texts}
+        delete, add = reps[0]
+        if add is None or list(delete) != [rep[0][0]] or len(add) not in (1, 2):
+            return {"outcome": "malformed-replacement", "iterations": it, "file": texts, "replacement": (delete, add)}
+        ln = delete[0]
+        old_text, origin = lines[ln - 1]
+        if len(add) == 2:
+            # an ignore comment on its own line above the unchanged original line
+            if add[1].rstrip("\n") != old_text or not add[0].strip().startswith(flt.IC):
+                return {"outcome": "original-line-changed", "iterations": it, "file": texts, "replacement": (delete, add)}
+            lines = lines[: ln - 1] + [(add[0].rstrip("\n"), None), lines[ln - 1]] + lines[ln:]
+        else:
+            # the original line with an ignore comment appended
+            new_text = add[0].rstrip("\n")
+            if not (new_text.startswith(old_text) and new_text[len(old_text):].strip().startswith(flt.IC)):
+                return {"outcome": "original-line-changed", "iterations": it, "file": texts, "replacement": (delete, add)}
+            lines = lines[: ln - 1] + [(new_text, origin)] + lines[ln:]
+        history.append(rep[0])
+    return {"outcome": "no-fixpoint", "iterations": limit, "file": [t for t, _ in lines], "history": history}
+
+
+def _add_ignores_files():
+    import itertools
+
+    code_kinds = ["x = f()", "    y = g()"]
+    codesets = [(), ("A",), ("B",), ("A", "B")]
+    for n in (1, 2, 3):
+        for texts in itertools.product(code_kinds, repeat=n):
+            for lead in (False, True):
+                for cs in itertools.product(codesets, repeat=n):
+                    if any(cs):
+                        yield (["# a comment"] if lead else []) + list(texts), ([()] if lead else []) + list(cs)
+
+
+def _add_ignores_chunk(args):
+    part, nparts = args
+    from ..model import Program as _P
+    from . import filter_model as flt
+
+    model = flt.FilterModel(_P())
+    total = 0
+    classes: Dict[str, List[dict]] = {"terminates-with-nothing-reported": [], "code-lines-unchanged": [], "no-unused-comment-added": [], "each-comment-suppresses-exactly-one-diagnostic": []}
+    counts = {k: 0 for k in classes}
+
+    def strip_ic(t: str) -> str:
+        return t.split("  " + flt.IC)[0] if not t.strip().startswith(flt.IC) else t
+
+    for idx, (code_lines, dpl) in enumerate(_add_ignores_files()):
+        if idx % nparts != part:
+            continue
+        total += 1
+        d = {"file": code_lines, "diagnostics_per_line": [list(x) for x in dpl]}
+        res = _add_ignores_fixpoint(model, code_lines, dpl)
+        counts["terminates-with-nothing-reported"] += 1
+        if res["outcome"] != "fixpoint":
+            classes["terminates-with-nothing-reported"].append({**d, "outcome": res["outcome"], "file_after": res.get("file"), "iterations": res["iterations"]})
+            continue
+        final = res["lines"]
+        counts["code-lines-unchanged"] += 1
+        if [strip_ic(t) for t, o in final if o is not None] != code_lines or [o for _, o in final if o is not None] != list(range(len(code_lines))):
+            classes["code-lines-unchanged"].append({**d, "file_after": res["file"]})
+        counts["no-unused-comment-added"] += 1
+        if res["unused"]:
+            classes["no-unused-comment-added"].append({**d, "file_after": res["file"], "unused_comment_lines": res["unused"]})
+        counts["each-comment-suppresses-exactly-one-diagnostic"] += 1
+        variants = []
+        for i, (t, o) in enumerate(final):
+            if o is None:
+                variants.append((f"line {i + 1}", final[:i] + final[i + 1 :]))
+            else:
+                parts = t.split("  " + flt.IC)
+                for k in range(1, len(parts)):
+                    t2 = ("  " + flt.IC).join(parts[:k] + parts[k + 1 :])
+                    variants.append((f"trailing comment {k} of line {i + 1}", final[:i] + [(t2, o)] + final[i + 1 :]))
+        for what, rest in variants:
+            texts2 = [t for t, _ in rest]
+            pos = {o: j + 1 for j, (_, o) in enumerate(rest) if o is not None}
+            diags = [(pos[j], c) for j, codes in enumerate(dpl) for c in codes]
+            rep, _u, _r, _un = model.run_fresh(texts2, diags, frozenset(flt.CODES), False)
+            if len(rep) != 1:
+                classes["each-comment-suppresses-exactly-one-diagnostic"].append({**d, "file_after": res["file"], "removed": what, "diagnostics_back": rep})
+                break
+    return total, counts, classes
+
+
+def r16_j(prog: Program, chk: Check) -> None:
+    import multiprocessing as mp
+    import os as _os
+
+    chk.rule(
+        "R16.j",
+        "add-ignores as a finite model: on every file of up to 3 code lines (plain or indented, optionally preceded by a plain comment) with every assignment of 0-2 diagnostic "
+        "codes per line, repeating `report everything with add_ignores on, apply the first replacement` reaches a fixpoint with nothing reported; the code lines are unchanged and "
+        "in order (same syntax tree), every inserted comment is an ignore comment, none of them is unused, and removing any one of them brings back exactly one diagnostic",
+        floor=4,
+    )
+    procs = 2 if _os.environ.get("VERIF_SELFTEST") else min(16, _os.cpu_count() or 1)
+    with mp.get_context("fork").Pool(procs) as pl:
+        results = pl.map(_add_ignores_chunk, [(i, procs * 2) for i in range(procs * 2)])
+    total = 0
+    classes: Dict[str, List[dict]] = {}
+    counts: Dict[str, int] = {}
+    for t, cn, cl in results:
+        total += t
+        for k, v in cn.items():
+            counts[k] = counts.get(k, 0) + v
+        for k, v in cl.items():
+            classes.setdefault(k, []).extend(v)
+    chk.model_evaluations += total
+    chk.analysed["add_ignores_model"] = {"files_with_diagnostics": total}
+    site = prog.site("node_visitor", prog.func("node_visitor", "BaseNodeVisitor.show_error"))
+    for k, bad in sorted(classes.items()):
+        bad.sort(key=lambda x: (len(x["file"]), sum(len(c) for c in x["diagnostics_per_line"]), repr(x)))
+        chk.ob("R16.j", f"node_visitor::add-ignores-model::{k}", not bad, site, f"{counts[k]} files, {len(bad)} failing" + (f"; smallest: {bad[0]}" if bad else ""), witness=bad[:4])
+
+
 def run(prog: Program, chk: Check) -> None:
     r16_c(prog, chk)
-    r16_d(prog, chk)
     r16_e(prog, chk)
     r16_f(prog, chk)
-    r16_g(prog, chk)
     r16_hi(prog, chk)
     r16_i(prog, chk)
+    r16_j(prog, chk)
